@@ -2081,7 +2081,13 @@ func writeDereferenced(b *strings.Builder, rv reflect.Value, depth int) {
 		for i := range order {
 			order[i] = i
 		}
-		sort.Slice(order, func(i, j int) bool { return names[order[i]] < names[order[j]] })
+		sort.Slice(order, func(i, j int) bool {
+			if names[order[i]] == names[order[j]] {
+				// keys of different types that print alike (1 and "1")
+				return keyTypeName(keys[order[i]]) < keyTypeName(keys[order[j]])
+			}
+			return names[order[i]] < names[order[j]]
+		})
 		b.WriteString("map[")
 		for n, i := range order {
 			if n > 0 {
